@@ -18,7 +18,7 @@ Definition notrig2 : strig := {| sf := None; sd := None; stm := None; ssz := Non
 
 Definition ftrig2 (g : strig) : trig :=
   {| t_filter := sf g; t_depth := sd g; t_time := stm g; t_size := ssz g;
-     t_trace_on := false; t_trace_off := false; t_trace := str g; t_caller := sc g; t_loc := sl g |}.
+     t_trace_on := false; t_trace_off := false; t_trace := str g; t_caller := sc g; t_loc := sl g; t_finish := false |}.
 Definition fcfg2 (tg : N -> strig) (szf : N -> N) (fm hc lm : bool) (gd thr ms : N) (sh : shape) : cfg :=
   {| trig_of := fun a => ftrig2 (tg a); fmode_in := fm; has_caller := hc; gdepth := gd; threshold := thr;
      max_stack := ms; sym_size := szf; shp := sh; lmode_in := lm |}.
